@@ -266,7 +266,9 @@ fn wide_integer_item(r: &mut Rng, pos: usize) -> String {
     let zeros = if r.chance(1, 8) { "00" } else { "" };
     // an explicit '+' on the numeral now and then (the integer parser accepts it; a seeded change that pre-scanned for
     // "optional minus and digits" sent such numerals down the f64 path)
-    let plus = if r.chance(1, 6) { "+" } else { "" };
+    // ... or an explicit '-' on the numeral itself (a signed component: "1 d -5 ns", and after the text's own
+    // leading '-' a doubled sign), which is how the least i128 reaches the integer reader
+    let plus = match r.below(12) { 0 | 1 => "+", 2 | 3 => "-", _ => "" };
     let sp: Vec<&str> = SPELLINGS.iter().filter(|(_, p)| *p == pos).map(|(s, _)| *s).collect();
     format!("{plus}{zeros}{q} {}", r.pick(&sp))
 }
